@@ -87,6 +87,18 @@ def pclass(p):
 
 def replay_generic(prop, ctx, res, v, project, what):
     c = case_from_desc(v['case'])
+    if (c.meta or {}).get('family') == 'long-path' or len(c.path) > 20000:
+        # a path of tens of thousands of characters: implementation only (see the long-path family), outcome known by construction
+        g_ = core.run_go([c])[0]
+        print('implementation: %s' % {k: (x[:120] if isinstance(x, str) else x) for k, x in g_.items() if k != 'id'})
+        n_ = c.path.count(b',') + 1
+        if c.path.endswith(b']]'):
+            good = g_.get('P') == 'syn:%d:unrecognized' % (len(c.path) - 1)
+        else:
+            good = g_.get('P') == 'ok' and g_.get('R0', '').count('n(1,0)') == n_
+        if not good:
+            res.violation('concrete', 'replay', 'a path of %d characters does not behave as its construction says' % len(c.path), c)
+        return
     go, mo = both_sides([c], runner=core.RUNNER_RACE if prop.needs_race else None)
     compare_cases(res, [c], go, mo, project, what)
     print('implementation: %s' % {k: x for k, x in go[0].items() if k != 'id'})
@@ -681,6 +693,46 @@ class C01(EvalProp):
             if fa.startswith('ok:') and len(values_of(fa)) >= 2:
                 res.nontrivial.add((c.path, core.doc_render(c.docs[0])))
             res.dist['coq-chain-path'] += 1
+        # string literals of filters spelled with backslashes before every sort of character (a line feed, a tab, a letter, the
+        # quotes, a backslash, non-ASCII): what the literal denotes is decided by the model's unescaping; the members hold the
+        # candidate readings (with and without the backslash), so a different reading selects different members
+        after = ['\n', '\r', '\t', 'n', 'u', 'x', ' ', '\\', "'", '"', '/', 'é', '0', '(', ']']
+        lcases = []
+        for i in range(ctx.n(160, 1600) * budget_scale):
+            q = r.choice("'\"")
+            pieces, readings = [], [[]]
+            for _ in range(r.randint(1, 3)):
+                if r.random() < 0.7:
+                    ch = r.choice(after)
+                    if ch == q and r.random() < 0.5:
+                        ch = 'n'
+                    pieces.append('\\' + ch)
+                    readings = [x + [y] for x in readings for y in ('\\' + ch, ch)]
+                else:
+                    t_ = r.choice(['x', 'ab', 'y', '1'])
+                    pieces.append(t_)
+                    readings = [x + [t_] for x in readings]
+            body = ''.join(pieces)
+            vals = list(dict.fromkeys(''.join(x) for x in readings))[:6] + ['x']
+            members = [('o', [(b'a', ('s', v.encode('utf-8'))), (b'n', ('n', float(j)))]) for j, v in enumerate(vals)]
+            op = r.choice(['==', '==', '!='])
+            tpl = r.choice(['$[?(@.a%s%s%s%s)]', '$[?(@.a%s%s%s%s)].n', '$[?(@.n>=0&&@.a%s%s%s%s)]', '$[?(%s%s%s%s@.a)]'[:0] or '$[?(@.a%s%s%s%s||@.n<0)]'])
+            text = tpl % (op, q, body, q)
+            lcases.append(Case('lb%d' % i, text.encode('utf-8'), [('a', members)], meta={'family': 'literal-backslashes', 'nsteps': 1}))
+        go, mo = both_sides(lcases)
+        for c, g_, m in zip(lcases, go, mo):
+            res.evaluations += 1
+            hp = harness_problem(g_) or harness_problem(m)
+            if hp:
+                res.violation('broken-correspondence', 'harness:' + hp[:60], hp, c)
+                continue
+            a, b = g_.get('R0', 'P:' + g_.get('P', '')), m.get('R0', 'P:' + m.get('P', ''))
+            if a != b:
+                res.disagreements_checked += 1
+                res.violation('concrete', sig_of(c, 'literal-backslash'), 'the string literal of %r denotes something else than in the model' % (c.path,), c, expected=b, observed=a)
+            if a.startswith('ok:'):
+                res.nontrivial.add((c.path, 'lb'))
+            res.dist['literal-backslashes:' + cls_of(a)] += 1
 
 
 @register
@@ -764,7 +816,7 @@ def call_fails(call):
     if not m:
         return True
     kind, name, arg = m.groups()
-    if name in ('fail', 'afail', 'relay'):
+    if name in ('fail', 'afail', 'relay', 'zfail', 'azfail'):
         return True
     if kind == 'F' and name in gens.AGG_FUNCS or kind == 'G' and name in gens.FILTER_FUNCS:
         return True             # a name of the other library: always fails
@@ -1066,6 +1118,30 @@ class C17(EvalProp):
                               expected={'P': want, 'X': hx(tail.encode('utf-8'))}, observed={'P': gb.get('P'), 'X': gb.get('X'), 'model': mb.get('P')})
             res.nontrivial.add(b.path)
             res.dist['garbage-after-path'] += 1
+        # paths longer than 65535 characters (implementation only: the extracted interpreter keeps no memo table and is not made
+        # for this size; the outcomes are known by construction): a union of n zeros on a one-element array returns n values,
+        # and the same text with a second `]` is rejected exactly there
+        for n_ in sorted(set([33001, 40000] + ([r.randint(33000, 36000)] if not ctx.quick else []))):
+            body = b'$[' + b','.join([b'0'] * n_) + b']'
+            lc = [Case('long_ok_%d' % n_, body, [('a', [('n', 1.0)])], meta={'family': 'long-path'}),
+                  Case('long_bad_%d' % n_, body + b']', [], meta={'family': 'long-path'})]
+            for c, g_ in zip(lc, core.run_go(lc)):
+                res.evaluations += 1
+                hp = harness_problem(g_)
+                if hp:
+                    res.violation('concrete', sig_of(c, 'long-path'), 'a path of %d characters: %s' % (len(c.path), hp[:80]), c, observed=hp[:200])
+                    continue
+                if c.id.startswith('long_ok'):
+                    r0 = g_.get('R0', '')
+                    if g_.get('P') != 'ok' or not r0.startswith('ok:[') or r0.count('n(1,0)') != n_:
+                        res.violation('concrete', sig_of(c, 'long-path'), 'a union of %d zeros (%d characters) on [1] returns that many values' % (n_, len(c.path)), c,
+                                      expected='ok: %d values' % n_, observed=(g_.get('P', '') + ' ' + r0[:80]))
+                else:
+                    want = 'syn:%d:unrecognized' % len(body)
+                    if g_.get('P') != want or unhx(g_.get('X', '-')) != b']':
+                        res.violation('concrete', sig_of(c, 'long-path'), 'the same text followed by `]`: unrecognized input at offset %d' % len(body), c,
+                                      expected=want, observed=g_.get('P', ''))
+                res.dist['long-path'] += 1
         # the grammar of the PINNED tree (coq/GrammarPinned.v, the one the theorems were proved for): the implementation must
         # accept and reject as that grammar does.  On the current tree it is the regenerated grammar (GrammarPinnedEq.v), so this
         # repeats the main comparison; when jsonpath.peg and the generated parser are changed together the regenerated model
@@ -2063,7 +2139,7 @@ class C09(Prop):
             names = [b'a', b'b', b'k']
             kb = r.choice(names)
             inner_kind = r.choice(['name', 'name', 'self', 'idx', 'name2'])
-            pool = [0.0, 1.0, 2.0, 2.5, -1.0, 10.0, 100.0, 0.5, 3.0]
+            pool = [0.0, 1.0, 2.0, 2.5, -1.0, 10.0, 100.0, 0.5, 3.0, -0.0, 0.0]
 
             def numv():
                 x = r.choice(pool)
@@ -2138,8 +2214,37 @@ class C09(Prop):
                             vs.append(o_ == 1)
                     if (any(vs) if disj else all(vs)):
                         kept2.append(x)
+                bqs = None
+                if len(ispec) >= 2 and r.random() < 0.6:
+                    # a lower and an upper bound joined by &&, one on the operand and one on a PREFIX of its path (another operand
+                    # altogether): the intersection of the two selections, whichever comes first
+                    short_t, short_s = itext[:itext.rfind('.')], ispec[:-1]
+                    lo = (r.choice([4, 5]), r.choice([repr(v_ - 1) for v_ in seen_nums[:3]] or ['0']))
+                    hi = (r.choice([2, 3]), r.choice([repr(v_ + 1) for v_ in seen_nums[:3]] or ['9']))
+                    ops_ = [(itext, ispec) + lo, (short_t, short_s) + hi]
+                    if r.random() < 0.5:
+                        ops_ = [(itext, ispec) + hi, (short_t, short_s) + lo]
+                    if r.random() < 0.5:
+                        ops_.reverse()
+                    disj = False
+                    text2 = '$[?(' + '&&'.join('@' + t_ + ['==', '!=', '<', '<=', '>', '>='][o_] + l_ for t_, s_, o_, l_ in ops_) + ')]'
+                    kept2 = []
+                    for x in chain_children(body):
+                        vs = []
+                        for t_, s_, o_, l_ in ops_:
+                            got = inner_reach(s_, [x])
+                            f_ = float(l_)
+                            if got and got[0][0] in 'nj':
+                                a = got[0][1] if got[0][0] == 'n' else float(got[0][1])
+                                vs.append([a == f_, a != f_, a < f_, a <= f_, a > f_, a >= f_][o_])
+                            else:
+                                vs.append(o_ == 1)
+                        if all(vs):
+                            kept2.append(x)
+                    bqs = [('c', s_, o_, [ord(ch) for ch in l_]) for t_, s_, o_, l_ in ops_]
                 c2 = Case('cu%d' % i, text2.encode('utf-8'), [body], meta={'family': 'coq-comparison-filter', 'nsteps': 1})
-                bqs = [('c', ispec, o_, [ord(ch) for ch in l_]) for o_, l_, _f in parts]
+                if bqs is None:
+                    bqs = [('c', ispec, o_, [ord(ch) for ch in l_]) for o_, l_, _f in parts]
                 c2.keyc = [(10, [[b] for b in bqs] if disj else [bqs])]
                 want[c2.id] = 'ok:[' + ','.join(core.doc_render(v) for v in kept2) + ']' if kept2 else 'fail'
                 cases.append(c2)
@@ -2667,12 +2772,12 @@ class C12(Prop):
             body = ('a', nums) if r.random() < 0.5 else ('o', list(zip(r.sample(gens.KEY_POOL[:8], len(nums)), nums)))
             doc = ('o', [(b'v', body), (b'w', ('a', [('o', [(b'b', body)]), ('o', [(b'b', ('a', [('n', 1.0)]))])]))])
             a1, a2 = r.choice(['amax', 'first', 'arr', 'cnt']), r.choice(['first', 'cnt', 'arr', 'amax'])
-            fs = [r.choice(['twice', 'id', 'wrap', 'relay']) for _ in range(r.randint(1, 3))]
+            fs = [r.choice(['twice', 'id', 'wrap', 'relay']) for _ in range(r.randint(0 if i % 3 == 0 else 1, 3))]
             chain = '.%s()' % a1 + ''.join('.%s()' % f for f in fs) + '.%s()' % a2 + ('.%s()' % r.choice(['id', 'twice']) if r.random() < 0.3 else '')
             if r.random() < 0.6:
-                text = '$.v%s%s' % (r.choice(['.*', '[*]', '', '..*']), chain)
+                text = '$.v%s%s' % (r.choice(['.*', '[*]', '', '..*', '[*,*]', '[*,*,*]', '[0,*]']), chain)
             else:
-                text = '$.w[?(@.b%s%s %s %d)]' % (r.choice(['.*', '[*]', '']), chain, r.choice(['>=', '==', '<', '!=']), r.randint(0, 4))
+                text = '$.w[?(@.b%s%s %s %d)]' % (r.choice(['.*', '[*]', '', '[*,*]', '[*,*,*]']), chain, r.choice(['>=', '==', '<', '!=']), r.randint(0, 4))
             extra.append(Case('fa%d' % i, text.encode(), [doc], sorted(set(fs + ['id', 'twice'])), sorted({a1, a2}), False, False, 'eval', {'family': 'agg-fun-agg', 'nsteps': 4}))
         plain += extra
         plain += load_corpus(self.id, ctx.root) if seed_offset == 0 else []
@@ -3242,11 +3347,17 @@ def gen_key(r):
     if k < 0.2:
         return r.choice(['\\n', '\\u0041', 'a\\', '\\\\', "\\'", '\\"', '\\ud83d', '\\ud83d\\ude00', 'a.b', "it's", 'say "x"',
                          '\\/', '\\b', '$', '@', '*', '..', '()', 'a()', '[0]', "']", '\\x', '\\u12', 'a b', ' ', 'true', '1', '-1'])
-    return ''.join(chr(r.choice(KEY_ALPHABET)) for _ in range(r.randint(1, 12 if r.random() < 0.3 else 4)))
+    body = ''.join(chr(r.choice(KEY_ALPHABET)) for _ in range(r.randint(1, 12 if r.random() < 0.3 else 4)))
+    if r.random() < 0.06:
+        # a name that begins with something a text reader might strip: a byte order mark, a zero-width space, a word joiner
+        body = r.choice(['\ufeff', '\u200b', '\u2060', '\ufffe']) + r.choice([body, 'id', 'a'])
+    return body
 
 
 def near_misses(r, key):
     out = set()
+    if len(key) > 1:
+        out.add(key[1:])
     if '\\' in key:
         out.add(key.replace('\\', ''))
         out.add(key.replace('\\', '\\\\'))
@@ -3734,6 +3845,20 @@ class C19(Prop):
                                   b'$.a.' + fa[0].encode() + b'()', b'$.b[?(@.' + r.choice(fb).encode() + b'() > 0)]'])
                 ops.append((dict(op='retrieve', path_hex=hx(probe), doc=core.doc_go(doc), mutate=False, cfg_ref=1, **cfga), doc))
             hists.append((ops, True))
+        # a Config whose functions are REPLACED under their names after a Parse, then used again: the new Parse binds the
+        # functions the Config holds now (all of them failing), the function parsed earlier keeps the ones it was parsed with
+        for i in range(max(30, n // 30)):
+            fa = r.sample(['twice', 'id', 'wrap', 'tn'], r.randint(1, 3))
+            aa = r.sample(['cnt', 'first', 'arr', 'amax'], r.randint(1, 2))
+            cfga = {'filters': fa, 'aggs': aa, 'acc': r.random() < 0.2, 'nocfg': False}
+            p_f = [b'$.a.' + fa[0].encode() + b'()', b'$.b[*].' + fa[0].encode() + b'()', b'$.b.' + aa[0].encode() + b'()', b'$.b[?(@.' + fa[0].encode() + b'() > 0)]',
+                   b'$.c.a.' + fa[-1].encode() + b'().' + fa[0].encode() + b'()', b'$.b.' + aa[-1].encode() + b'().' + fa[0].encode() + b'()']
+            ops = [(dict(op='retrieve', path_hex=hx(r.choice(p_f)), doc=core.doc_go(doc), mutate=True, **cfga), doc)]
+            for _ in range(r.randint(0, 1)):
+                ops.append((dict(op='retrieve', path_hex=hx(r.choice(LEAK_PROBES)[0]), doc=core.doc_go(doc), mutate=False, filters=[], aggs=[], acc=False, nocfg=True), doc))
+            for _ in range(r.randint(1, 3)):
+                ops.append((dict(op='retrieve', path_hex=hx(r.choice(p_f)), doc=core.doc_go(doc), mutate=False, cfg_ref=1, allfail=True, **cfga), doc))
+            hists.append((ops, True))
         # cold starts: the history runs in a brand-new process, so its first call is the first the library ever sees
         # (lazily initialised package state, the generated parser's own buffers): the empty path, paths that begin
         # with an escape, a bare name, ... then ordinary calls
@@ -3758,7 +3883,7 @@ class C19(Prop):
         uniq = {}
         for ops, _ in hists:
             for op, d in ops:
-                key = json.dumps([op['path_hex'], op['filters'], op['aggs'], op['acc'], op['nocfg'], core.doc_render(d)])
+                key = json.dumps([op['path_hex'], op['filters'], op['aggs'], op['acc'], op['nocfg'], core.doc_render(d), bool(op.get('allfail'))])
                 if key not in uniq:
                     cid = 'u%d' % len(uniq)
                     op1 = dict(op, mutate=False, cfg_ref=0)
@@ -3779,6 +3904,8 @@ class C19(Prop):
                 continue
             o = gu.get('O0', gu.get('P', ''))
             alone[k] = o
+            if json.loads(k)[6]:
+                continue        # every function replaced by a failing one under its name: not a library of the model; compared with the call alone only
             if b'apanic' in mc.path:
                 continue        # a panicking user function is outside the model (its functions return a value or fail); compared with the call alone only
             if mu.get('P') == 'ok':
@@ -3793,7 +3920,7 @@ class C19(Prop):
             res.evaluations += 1
             bad = None
             for k, (op, d) in enumerate(ops):
-                key = json.dumps([op['path_hex'], op['filters'], op['aggs'], op['acc'], op['nocfg'], core.doc_render(d)])
+                key = json.dumps([op['path_hex'], op['filters'], op['aggs'], op['acc'], op['nocfg'], core.doc_render(d), bool(op.get('allfail'))])
                 o = g_.get('O%d' % k, g_.get('P', ''))
                 if key in alone and o != alone[key]:
                     bad = (k, o, alone[key])
